@@ -8,8 +8,10 @@ global size_of usize == 8;
 const EMPTY: u32 = 0xffff_ffff;
 
 // ---------- PairTable by contract (definitions shared with the cpc_pairtable / cpc_core units) ----------
+#[derive(Clone)]
 struct PairTable {
 lg_size : u8 , num_valid_bits : u8 , num_items : u32 , slots : Vec < u32 > , }
+
 
 
 
@@ -23,6 +25,7 @@ impl PairTable {
     spec fn items(&self) -> ISet<u32> { ISet::new(|c: u32| c != EMPTY && pholds(self.slots@, c)) }
     fn slots ( & self ) -> ( r : & [ u32 ] ) ensures r @ == self . slots @ {
 & self . slots }
+
 
 
 
@@ -188,6 +191,7 @@ lemma_or_assoc ( d0 [ i ] , fold_prefix ( wm , rows , i , src_row as int ) , wm 
 
 
 
+
 fn or_table_into_matrix ( dst_matrix : & mut [ u64 ] , dst_lg_k : u8 , src_table : & PairTable ) requires dst_lg_k <= 26 , old ( dst_matrix ) @ . len ( ) == pow2 ( dst_lg_k as nat ) ensures final ( dst_matrix ) @ . len ( ) == old ( dst_matrix ) @ . len ( ) ,
 /*@C06.or_table*/ forall | i : int , c : int | 0 <= i < final ( dst_matrix ) @ . len ( ) && 0 <= c < 64 ==> # [ trigger ] bit ( final ( dst_matrix ) @ [ i ] , c ) == ( bit ( old ( dst_matrix ) @ [ i ] , c ) || exists | x : u32 | src_table . items ( ) . contains ( x ) && # [ trigger ] hits ( x , old ( dst_matrix ) @ . len ( ) as int , i , c ) ) {
 proof {
@@ -249,6 +253,7 @@ assert ( src_table . items ( ) . contains ( x ) && hits ( x , rows , i , c ) ) ;
 
 
 
+
 fn or_matrix_into_matrix ( dst_matrix : & mut [ u64 ] , dst_lg_k : u8 , src_matrix : & [ u64 ] , src_lg_k : u8 ) requires dst_lg_k <= src_lg_k <= 26 , old ( dst_matrix ) @ . len ( ) == pow2 ( dst_lg_k as nat ) , src_matrix @ . len ( ) == pow2 ( src_lg_k as nat ) ensures final ( dst_matrix ) @ . len ( ) == old ( dst_matrix ) @ . len ( ) ,
 /*@C06.or_matrix*/ forall | i : int | 0 <= i < final ( dst_matrix ) @ . len ( ) ==> # [ trigger ] final ( dst_matrix ) @ [ i ] == old ( dst_matrix ) @ [ i ] | fold_prefix ( src_matrix @ , old ( dst_matrix ) @ . len ( ) as int , i , src_matrix @ . len ( ) as int ) {
 assert! ( dst_lg_k <= src_lg_k ) ;
@@ -280,6 +285,7 @@ lemma_or_assoc ( d0 [ i ] , fold_prefix ( src_matrix @ , rows , i , src_row as i
 }
 }
 }
+
 
 
 
@@ -419,8 +425,10 @@ proof fn lemma_probe_cover(n: nat, p0: int, s: int, i: int) -> (j: int)
 }
 
 // ================= the sketch by contract (view and invariant copied VERBATIM from contracts/cpc_update.rs) =================
+#[derive(Clone)]
 struct CpcSketch {
 lg_k : u8 , seed : u64 , seed_hash : u16 , first_interesting_column : u8 , num_coupons : u32 , surprising_value_table : Option < PairTable > , window_offset : u8 , sliding_window : Vec < u8 > , merge_flag : bool , kxp : f64 , hip_est_accum : f64 , }
+
 
 
 
@@ -428,6 +436,8 @@ spec fn bit8(x: u8, c: int) -> bool { (x >> (c as u8)) & 1 == 1 }
 spec fn dco(lg_k: u8, c: u32) -> int { let k = pow2(lg_k as nat) as int; if 8 * (c as int) < 19 * k { 0 } else { (8 * (c as int) - 19 * k) / (8 * k) } }
 impl CpcSketch {
     spec fn k(&self) -> int { pow2(self.lg_k as nat) as int }
+    // the abstract matrix M() as an element of the algebra
+    spec fn am(&self) -> AM { AM { rows: self.k(), f: |r: int, c: int| self.mbit(r, c) } }
     spec fn tbl(&self) -> ISet<u32> { if self.surprising_value_table is Some { self.surprising_value_table->0.items() } else { ISet::empty() } }
     // the abstract bit matrix, as the paper defines it
     spec fn mbit(&self, row: int, col: int) -> bool {
@@ -471,16 +481,20 @@ impl CpcSketch {
 self . lg_k }
 
 
+
     fn is_empty ( & self ) -> ( r : bool ) ensures r == ( self . num_coupons == 0 ) {
 self . num_coupons == 0 }
+
 
 
     fn flavor ( & self ) -> ( r : Flavor ) requires 4 <= self . lg_k <= 26 ensures r == flavor_spec ( self . lg_k , self . num_coupons ) {
 determine_flavor ( self . lg_k , self . num_coupons ) }
 
 
+
     fn surprising_value_table ( & self ) -> ( r : & PairTable ) requires self . surprising_value_table is Some ensures * r == self . surprising_value_table -> 0 {
 self . surprising_value_table . as_ref ( ) . expect ( "" ) }
+
 
 
     // opaque (seed hash, float kxp): a fresh EMPTY sketch
@@ -491,12 +505,106 @@ self . surprising_value_table . as_ref ( ) . expect ( "" ) }
         r.window_offset == 0, r.sliding_window@.len() == 0, r.merge_flag == false,
     { unimplemented!() }
 
-    // opaque: contract copied VERBATIM from the one PROVED in contracts/cpc_core.rs (unit cpc_core)
-    #[verifier::external_body]
-    fn build_bit_matrix(&self) -> (matrix: Vec<u64>)
-      requires self.wf_matrix(), self.surprising_value_table is Some,
-      ensures matrix@.len() == self.k(), forall|r: int, c: int| 0 <= r < self.k() && 0 <= c < 64 ==> bit(matrix@[r], c) == self.mbit(r, c),
-    { unimplemented!() }
+    // real body; proof from contracts/cpc_core.rs, precondition weakened to wf_matrix() (an EMPTY sketch has no table: early return)
+    fn build_bit_matrix ( & self ) -> ( matrix : Vec < u64 > ) requires self . wf_matrix ( ) , ensures matrix @ . len ( ) == self . k ( ) , forall | r : int , c : int | 0 <= r < self . k ( ) && 0 <= c < 64 ==> bit ( matrix @ [ r ] , c ) == self . mbit ( r , c ) , {
+proof {
+lemma_shl_us ( self . lg_k ) ;
+}
+let k = 1 << self . lg_k ;
+let offset = self . window_offset ;
+debug_assert! ( offset <= 56 ) ;
+proof {
+lemma_low_mask ( offset ) ;
+}
+let default_row = ( 1u64 << offset ) - 1 ;
+let mut matrix = vec! [ default_row ;
+k ] ;
+if self . num_coupons == 0 {
+proof {
+assert forall | r : int , c : int | 0 <= r < self . k ( ) && 0 <= c < 64 implies bit ( matrix @ [ r ] , c ) == self . mbit ( r , c ) by {
+lemma_low_mask_bit ( offset , c ) ;
+}
+}
+return matrix ;
+}
+if ! self . sliding_window . is_empty ( ) {
+for i in 0 .. k invariant matrix @ . len ( ) == k , k == self . k ( ) , self . sliding_window @ . len ( ) == k , offset <= 56 , offset == self . window_offset , forall | r : int | 0 <= r < i ==> matrix @ [ r ] == default_row | ( ( self . sliding_window @ [ r ] as u64 ) << offset ) , forall | r : int | i <= r < k ==> matrix @ [ r ] == default_row , {
+matrix [ i ] |= ( self . sliding_window [ i ] as u64 ) << offset ;
+}
+}
+let ghost win = self . sliding_window @ . len ( ) != 0 ;
+let ghost sw = self . sliding_window @ ;
+let ghost m0 = matrix @ ;
+assert forall | r : int , c : int | 0 <= r < k && 0 <= c < 64 implies bit ( m0 [ r ] , c ) == ( if win && offset <= c < offset + 8 {
+bit8 ( sw [ r ] , c - offset ) }
+else {
+c < offset }
+) by {
+lemma_low_mask_bit ( offset , c ) ;
+if win {
+lemma_window_bit ( default_row , sw [ r ] , offset , c ) ;
+}
+}
+let vx_s2 = self . surprising_value_table ( ) . slots ( ) ;
+let ghost sv = vx_s2 @ ;
+let mut vx_i2 = 0 ;
+while vx_i2 < vx_s2 . len ( ) invariant self . surprising_value_table is Some , matrix @ . len ( ) == k , k == self . k ( ) , vx_s2 @ == sv , sv == self . surprising_value_table -> 0 . slots @ , pdistinct ( sv ) , 0 <= vx_i2 <= sv . len ( ) , forall | x : u32 | # [ trigger ] self . tbl ( ) . contains ( x ) ==> ( x >> 6 ) < self . k ( ) , 4 <= self . lg_k <= 26 , forall | r : int , c : int | 0 <= r < k && 0 <= c < 64 ==> bit ( matrix @ [ r ] , c ) == ( bit ( m0 [ r ] , c ) != ( rc ( r , c ) != EMPTY && pholds ( sv . take ( vx_i2 as int ) , rc ( r , c ) ) ) ) , decreases sv . len ( ) - vx_i2 {
+let row_col = vx_s2 [ vx_i2 ] ;
+if row_col != u32 :: MAX {
+let col = ( row_col & 63 ) as u8 ;
+let row = ( row_col >> 6 ) as usize ;
+proof {
+lemma_rc ( row_col ) ;
+assert ( pholds ( sv , row_col ) ) ;
+assert ( self . tbl ( ) . contains ( row_col ) ) ;
+}
+let ghost mprev = matrix @ ;
+matrix [ row ] ^= 1 << col ;
+proof {
+lemma_k26 ( self . lg_k ) ;
+assert forall | r : int , c : int | 0 <= r < k && 0 <= c < 64 implies bit ( matrix @ [ r ] , c ) == ( bit ( m0 [ r ] , c ) != ( rc ( r , c ) != EMPTY && pholds ( sv . take ( vx_i2 + 1 ) , rc ( r , c ) ) ) ) by {
+lemma_take_step ( sv , vx_i2 as int , rc ( r , c ) ) ;
+lemma_rc_inj ( r , c , row as int , col as int ) ;
+if r == row as int {
+lemma_flip_bit ( mprev [ r ] , col , c ) ;
+}
+if rc ( r , c ) == row_col {
+if pholds ( sv . take ( vx_i2 as int ) , row_col ) {
+let b = sv . take ( vx_i2 as int ) ;
+let t = choose | t : int | 0 <= t < b . len ( ) && b [ t ] == row_col ;
+assert ( sv [ t ] == sv [ vx_i2 as int ] ) ;
+}
+}
+}
+}
+}
+else {
+proof {
+lemma_k26 ( self . lg_k ) ;
+assert forall | r : int , c : int | 0 <= r < k && 0 <= c < 64 implies bit ( matrix @ [ r ] , c ) == ( bit ( m0 [ r ] , c ) != ( rc ( r , c ) != EMPTY && pholds ( sv . take ( vx_i2 + 1 ) , rc ( r , c ) ) ) ) by {
+lemma_take_step ( sv , vx_i2 as int , rc ( r , c ) ) ;
+}
+}
+}
+vx_i2 += 1 ;
+}
+proof {
+assert ( sv . take ( sv . len ( ) as int ) =~= sv ) ;
+lemma_k26 ( self . lg_k ) ;
+assert forall | r : int , c : int | 0 <= r < self . k ( ) && 0 <= c < 64 implies bit ( matrix @ [ r ] , c ) == self . mbit ( r , c ) by {
+lemma_rc_inj ( r , c , r , c ) ;
+if self . tbl ( ) . contains ( rc ( r , c ) ) {
+assert ( pholds ( sv , rc ( r , c ) ) ) ;
+}
+}
+}
+matrix }
+
+
+    fn seed ( & self ) -> ( r : u64 ) ensures r == self . seed {
+self . seed }
+
+
 
 
 
@@ -642,6 +750,7 @@ assert ( table . items ( ) . contains ( x ) && hits ( x , kk , r , c ) ) ;
 
 
 
+
 proof fn lemma_hit_upto_step(ss: Seq<u32>, rows: int, sd: int, t: int, r: int, c: int)
   requires 0 <= t
   ensures hit_upto(ss, rows, sd, t + 1, r, c) == (hit_upto(ss, rows, sd, t, r, c)
@@ -698,9 +807,10 @@ proof fn lemma_fold(x: u32, lg: u8)
 }
 
 // ================= CpcUnion::reduce_k: the union state folded to a smaller lg_k =================
-#[derive(PartialEq, Eq, Structural)]
+#[derive(PartialEq, Eq, PartialOrd, Clone, Copy, Structural)]
 enum Flavor {
 Empty , Sparse , Hybrid , Pinned , Sliding , }
+
 
 
 // flavor_spec and the contract of determine_flavor: copied VERBATIM from contracts/cpc_update.rs, where the body is verified
@@ -714,12 +824,171 @@ fn determine_flavor(lg_k: u8, num_coupons: u32) -> (r: Flavor)
   ensures r == flavor_spec(lg_k, num_coupons)
 { unimplemented!() }
 
+
+// R15 leaves of CpcUnion::update -------------------------------------------------------------------------------------------
+// `flavor > Flavor::Sparse`: the derived PartialOrd of a fieldless enum compares declaration order
+spec fn frank(f: Flavor) -> int { match f { Flavor::Empty => 0, Flavor::Sparse => 1, Flavor::Hybrid => 2, Flavor::Pinned => 3, Flavor::Sliding => 4 } }
+#[verifier::external_body]
+fn vx_flavor_gt(a: Flavor, b: Flavor) -> (r: bool) ensures r == (frank(a) > frank(b)) { a > b }
+// `sketch.clone()`: the derived Clone of a plain-data struct returns an equal value
+#[verifier::external_body]
+fn vx_sketch_clone(s: &CpcSketch) -> (r: CpcSketch) ensures r == *s { s.clone() }
+
+// ================= C06: the abstract algebra of bit matrices (rows x 64 predicates) =================
+ghost struct AM { rows: int, f: spec_fn(int, int) -> bool }
+spec fn am_get(a: AM, i: int, c: int) -> bool { (a.f)(i, c) }
+spec fn am_eq(a: AM, b: AM) -> bool { a.rows == b.rows && forall|i: int, c: int| 0 <= i < a.rows && 0 <= c < 64 ==> #[trigger] am_get(a, i, c) == am_get(b, i, c) }
+spec fn am_or(a: AM, b: AM) -> AM { AM { rows: a.rows, f: |i: int, c: int| am_get(a, i, c) || am_get(b, i, c) } }
+// foldrows: bit (i, c) of the folded matrix is the OR of the source bits (r, c) with r = i (mod rows)
+spec fn am_fold_at(a: AM, rows: int, i: int, c: int) -> bool { exists|r: int| 0 <= r < a.rows && r % rows == i && #[trigger] am_get(a, r, c) }
+spec fn am_fold(a: AM, rows: int) -> AM { AM { rows: rows, f: |i: int, c: int| am_fold_at(a, rows, i, c) } }
+spec fn imin(a: int, b: int) -> int { if a <= b { a } else { b } }
+// what one CpcUnion::update does to the abstract matrix of the union
+spec fn am_upd(u: AM, s: AM) -> AM { let n = imin(u.rows, s.rows); am_or(am_fold(u, n), am_fold(s, n)) }
+
+proof fn lemma_am_eq_refl(a: AM) ensures /*@C06.algebra*/ am_eq(a, a) { }
+proof fn lemma_am_eq_sym(a: AM, b: AM) requires am_eq(a, b) ensures /*@C06.algebra*/ am_eq(b, a) { }
+proof fn lemma_am_eq_trans(a: AM, b: AM, c: AM) requires am_eq(a, b), am_eq(b, c) ensures /*@C06.algebra*/ am_eq(a, c) {
+    assert forall|i: int, j: int| 0 <= i < a.rows && 0 <= j < 64 implies #[trigger] am_get(a, i, j) == am_get(c, i, j) by { assert(am_get(a, i, j) == am_get(b, i, j)); }
+}
+proof fn lemma_or_comm(a: AM, b: AM) requires a.rows == b.rows ensures /*@C06.algebra*/ am_eq(am_or(a, b), am_or(b, a)) { }
+proof fn lemma_or_assoc_am(a: AM, b: AM, c: AM) requires a.rows == b.rows, b.rows == c.rows ensures /*@C06.algebra*/ am_eq(am_or(am_or(a, b), c), am_or(a, am_or(b, c))) { }
+proof fn lemma_or_idem(a: AM) ensures /*@C06.algebra*/ am_eq(am_or(a, a), a) { }
+// OR respects equality of matrices
+proof fn lemma_or_cong(a: AM, a2: AM, b: AM, b2: AM) requires am_eq(a, a2), am_eq(b, b2), a.rows == b.rows ensures /*@C06.algebra*/ am_eq(am_or(a, b), am_or(a2, b2)) {
+    assert forall|i: int, j: int| 0 <= i < a.rows && 0 <= j < 64 implies #[trigger] am_get(am_or(a, b), i, j) == am_get(am_or(a2, b2), i, j) by {
+        assert(am_get(a, i, j) == am_get(a2, i, j)); assert(am_get(b, i, j) == am_get(b2, i, j));
+    }
+}
+// foldrows respects equality of matrices
+proof fn lemma_fold_cong(a: AM, a2: AM, n: int) requires am_eq(a, a2) ensures /*@C06.algebra*/ am_eq(am_fold(a, n), am_fold(a2, n)) {
+    assert forall|i: int, j: int| 0 <= i < n && 0 <= j < 64 implies #[trigger] am_get(am_fold(a, n), i, j) == am_get(am_fold(a2, n), i, j) by {
+        if am_fold_at(a, n, i, j) { let r = choose|r: int| 0 <= r < a.rows && r % n == i && #[trigger] am_get(a, r, j); assert(am_get(a2, r, j)); }
+        if am_fold_at(a2, n, i, j) { let r = choose|r: int| 0 <= r < a2.rows && r % n == i && #[trigger] am_get(a2, r, j); assert(am_get(a, r, j)); }
+    }
+}
+// foldrows distributes over OR
+proof fn lemma_fold_or(a: AM, b: AM, n: int) requires a.rows == b.rows ensures /*@C06.algebra*/ am_eq(am_fold(am_or(a, b), n), am_or(am_fold(a, n), am_fold(b, n))) {
+    let ab = am_or(a, b);
+    assert forall|i: int, j: int| 0 <= i < n && 0 <= j < 64 implies #[trigger] am_get(am_fold(ab, n), i, j) == am_get(am_or(am_fold(a, n), am_fold(b, n)), i, j) by {
+        if am_fold_at(ab, n, i, j) {
+            let r = choose|r: int| 0 <= r < ab.rows && r % n == i && #[trigger] am_get(ab, r, j);
+            if am_get(a, r, j) { assert(am_fold_at(a, n, i, j)); } else { assert(am_get(b, r, j)); assert(am_fold_at(b, n, i, j)); }
+        }
+        if am_fold_at(a, n, i, j) { let r = choose|r: int| 0 <= r < a.rows && r % n == i && #[trigger] am_get(a, r, j); assert(am_get(ab, r, j)); }
+        if am_fold_at(b, n, i, j) { let r = choose|r: int| 0 <= r < b.rows && r % n == i && #[trigger] am_get(b, r, j); assert(am_get(ab, r, j)); }
+    }
+}
+// folding to the own number of rows is the identity
+proof fn lemma_fold_id(a: AM) requires a.rows > 0 ensures /*@C06.algebra*/ am_eq(am_fold(a, a.rows), a) {
+    assert forall|i: int, j: int| 0 <= i < a.rows && 0 <= j < 64 implies #[trigger] am_get(am_fold(a, a.rows), i, j) == am_get(a, i, j) by { lemma_fold_id_at(a, i, j); }
+}
+proof fn lemma_fold_id_at(a: AM, i: int, j: int) requires a.rows > 0, 0 <= i < a.rows ensures am_fold_at(a, a.rows, i, j) == am_get(a, i, j) {
+    if am_fold_at(a, a.rows, i, j) { let r = choose|r: int| 0 <= r < a.rows && r % a.rows == i && #[trigger] am_get(a, r, j); lemma_small_mod(r as nat, a.rows as nat); }
+    if am_get(a, i, j) { lemma_small_mod(i as nat, a.rows as nat); }
+}
+// folding twice is folding once (row counts are powers of two, so the smaller divides the larger)
+proof fn lemma_fold_fold(a: AM, n1: int, n2: int, d: int) requires n2 > 0, d > 0, n1 == n2 * d, a.rows > 0 ensures /*@C06.algebra*/ am_eq(am_fold(am_fold(a, n1), n2), am_fold(a, n2)) {
+    let f1 = am_fold(a, n1);
+    assert(n1 > 0) by (nonlinear_arith) requires n2 > 0, d > 0, n1 == n2 * d;
+    assert forall|i: int, j: int| 0 <= i < n2 && 0 <= j < 64 implies #[trigger] am_get(am_fold(f1, n2), i, j) == am_get(am_fold(a, n2), i, j) by {
+        if am_fold_at(f1, n2, i, j) {
+            let m = choose|m: int| 0 <= m < f1.rows && m % n2 == i && #[trigger] am_get(f1, m, j);
+            assert(am_fold_at(a, n1, m, j));
+            let r = choose|r: int| 0 <= r < a.rows && r % n1 == m && #[trigger] am_get(a, r, j);
+            lemma_mod_mod(r, n2, d);
+            assert(r % n2 == i);
+            assert(am_fold_at(a, n2, i, j));
+        }
+        if am_fold_at(a, n2, i, j) {
+            let r = choose|r: int| 0 <= r < a.rows && r % n2 == i && #[trigger] am_get(a, r, j);
+            let m = r % n1;
+            lemma_mod_bound(r, n1);
+            lemma_mod_mod(r, n2, d);
+            assert(am_fold_at(a, n1, m, j));
+            assert(am_get(f1, m, j));
+            assert(am_fold_at(f1, n2, i, j));
+        }
+    }
+}
+
+
+// ---- order / repetition independence of CpcUnion::update over the algebra (row counts are powers of two) ----
+proof fn lemma_upd_cong(u: AM, u2: AM, s: AM) requires am_eq(u, u2) ensures /*@C06.algebra*/ am_eq(am_upd(u, s), am_upd(u2, s)) {
+    let n = imin(u.rows, s.rows);
+    lemma_fold_cong(u, u2, n);
+    lemma_am_eq_refl(am_fold(s, n));
+    lemma_or_cong(am_fold(u, n), am_fold(u2, n), am_fold(s, n), am_fold(s, n));
+}
+proof fn lemma_pow2_min_divides(a: nat, b: nat) -> (d: int)
+  requires b <= a
+  ensures d > 0, pow2(a) == pow2(b) * d, pow2(b) > 0
+{
+    lemma_pow2_adds(b, (a - b) as nat); lemma_pow2_pos((a - b) as nat); lemma_pow2_pos(b);
+    pow2((a - b) as nat) as int
+}
+spec fn nmin(a: nat, b: nat) -> nat { if a <= b { a } else { b } }
+proof fn lemma_pow2_imin(a: nat, b: nat) ensures pow2(nmin(a, b)) == imin(pow2(a) as int, pow2(b) as int), pow2(a) > 0 {
+    if a < b { lemma_pow2_strictly_increases(a, b); }
+    if b < a { lemma_pow2_strictly_increases(b, a); }
+    lemma_pow2_pos(a);
+}
+// two updates in normal form: everything folded to the smallest row count and ORed
+proof fn lemma_upd2_nf(u: AM, s1: AM, s2: AM, a: nat, b: nat, c: nat, i: int, j: int)
+  requires u.rows == pow2(a), s1.rows == pow2(b), s2.rows == pow2(c), 0 <= i < pow2(nmin(nmin(a, b), c)), 0 <= j < 64
+  ensures am_upd(am_upd(u, s1), s2).rows == pow2(nmin(nmin(a, b), c)),
+    am_get(am_upd(am_upd(u, s1), s2), i, j) == (am_fold_at(u, pow2(nmin(nmin(a, b), c)) as int, i, j) || am_fold_at(s1, pow2(nmin(nmin(a, b), c)) as int, i, j) || am_fold_at(s2, pow2(nmin(nmin(a, b), c)) as int, i, j))
+{
+    let n = pow2(nmin(a, b)) as int; let m = pow2(nmin(nmin(a, b), c)) as int;
+    lemma_pow2_imin(a, b); lemma_pow2_imin(nmin(a, b), c); lemma_pow2_pos(b); lemma_pow2_pos(c);
+    let v = am_upd(u, s1);
+    assert(v.rows == n);
+    let d = lemma_pow2_min_divides(nmin(a, b), nmin(nmin(a, b), c));
+    lemma_fold_or(am_fold(u, n), am_fold(s1, n), m);
+    lemma_fold_fold(u, n, m, d);
+    lemma_fold_fold(s1, n, m, d);
+    assert(am_get(am_fold(v, m), i, j) == am_get(am_or(am_fold(am_fold(u, n), m), am_fold(am_fold(s1, n), m)), i, j));
+    assert(am_get(am_fold(am_fold(u, n), m), i, j) == am_get(am_fold(u, m), i, j));
+    assert(am_get(am_fold(am_fold(s1, n), m), i, j) == am_get(am_fold(s1, m), i, j));
+}
+// updating with s1 then s2 gives the same matrix as s2 then s1
+proof fn lemma_upd_order(u: AM, s1: AM, s2: AM, a: nat, b: nat, c: nat)
+  requires u.rows == pow2(a), s1.rows == pow2(b), s2.rows == pow2(c)
+  ensures /*@C06.algebra*/ am_eq(am_upd(am_upd(u, s1), s2), am_upd(am_upd(u, s2), s1))
+{
+    let l = am_upd(am_upd(u, s1), s2); let r = am_upd(am_upd(u, s2), s1);
+    assert(nmin(nmin(a, b), c) == nmin(nmin(a, c), b));
+    lemma_pow2_pos(nmin(nmin(a, b), c));
+    if pow2(nmin(nmin(a, b), c)) > 0 { lemma_upd2_nf(u, s1, s2, a, b, c, 0, 0); lemma_upd2_nf(u, s2, s1, a, c, b, 0, 0); }
+    assert forall|i: int, j: int| 0 <= i < l.rows && 0 <= j < 64 implies #[trigger] am_get(l, i, j) == am_get(r, i, j) by {
+        lemma_upd2_nf(u, s1, s2, a, b, c, i, j); lemma_upd2_nf(u, s2, s1, a, c, b, i, j);
+    }
+}
+// updating twice with the same sketch changes nothing
+proof fn lemma_upd_repeat(u: AM, s: AM, a: nat, b: nat)
+  requires u.rows == pow2(a), s.rows == pow2(b)
+  ensures /*@C06.algebra*/ am_eq(am_upd(am_upd(u, s), s), am_upd(u, s))
+{
+    let l = am_upd(am_upd(u, s), s); let r = am_upd(u, s);
+    assert(nmin(nmin(a, b), b) == nmin(a, b));
+    lemma_pow2_imin(a, b); lemma_pow2_pos(b);
+    lemma_upd2_nf(u, s, s, a, b, b, 0, 0);
+    assert forall|i: int, j: int| 0 <= i < l.rows && 0 <= j < 64 implies #[trigger] am_get(l, i, j) == am_get(r, i, j) by {
+        lemma_upd2_nf(u, s, s, a, b, b, i, j);
+    }
+}
+
+// number of coupons held by an accumulator (0 for the bit-matrix representation)
+spec fn acc_count(u: CpcUnion) -> int { match u.state { UnionState::Accumulator(a) => a.num_coupons as int, UnionState::BitMatrix(m) => 0 } }
+
 enum UnionState {
 Accumulator ( CpcSketch ) , BitMatrix ( Vec < u64 > ) , }
 
 
+
 struct CpcUnion {
 lg_k : u8 , seed : u64 , state : UnionState , }
+
 
 
 impl CpcUnion {
@@ -735,6 +1004,20 @@ impl CpcUnion {
               UnionState::BitMatrix(m) => m@.len() == self.k(),
             }
     }
+    // the abstract matrix of the union as an element of the algebra
+    spec fn um(&self) -> AM { AM { rows: self.k(), f: |r: int, c: int| self.ubit(r, c) } }
+    // what update needs beyond uwf / wf (all of it inherited from the callees' proved contracts)
+    spec fn upd_pre(&self, s: CpcSketch) -> bool {
+        let lg = if s.lg_k < self.lg_k { s.lg_k } else { self.lg_k };
+        &&& s.lg_k < self.lg_k ==> self.acc_reducible(s.lg_k)
+        &&& match self.state {
+              // Case A walks the source table into the accumulator: lg_k <= 18 (row_col_update), table shape (PairTable invariant),
+              // and the hash-dependent bound "the accumulator stays below 59.375 K coupons"
+              UnionState::Accumulator(a) => flavor_spec(s.lg_k, s.num_coupons) == Flavor::Sparse ==> lg <= 18 && tshape(s.surprising_value_table->0)
+                    && 8 * (a.num_coupons as int + s.num_coupons as int) < (27 + 8 * 56) * pow2(lg as nat),
+              UnionState::BitMatrix(m) => true,
+            }
+    }
     // what reduce_k needs of an accumulator beyond uwf
     spec fn acc_reducible(&self, new_lg_k: u8) -> bool {
         match self.state {
@@ -745,7 +1028,157 @@ impl CpcUnion {
         }
     }
 
-    fn reduce_k ( & mut self , new_lg_k : u8 ) requires old ( self ) . uwf ( ) , 4 <= new_lg_k < old ( self ) . lg_k , old ( self ) . acc_reducible ( new_lg_k ) , ensures final ( self ) . uwf ( ) , final ( self ) . lg_k == new_lg_k , final ( self ) . seed == old ( self ) . seed ,
+    fn update ( & mut self , sketch : & CpcSketch ) requires old ( self ) . uwf ( ) , sketch . wf ( ) , old ( self ) . seed == sketch . seed , old ( self ) . upd_pre ( * sketch ) , ensures
+/*@C06.update.wf*/ final ( self ) . uwf ( ) , final ( self ) . seed == old ( self ) . seed ,
+/*@C06.update.empty*/ sketch . num_coupons == 0 ==> * final ( self ) == * old ( self ) ,
+/*@C06.update.lg_k*/ sketch . num_coupons != 0 ==> final ( self ) . lg_k == ( if sketch . lg_k < old ( self ) . lg_k {
+sketch . lg_k }
+else {
+old ( self ) . lg_k }
+) ,
+/*@C06.update.matrix*/ sketch . num_coupons != 0 ==> am_eq ( final ( self ) . um ( ) , am_upd ( old ( self ) . um ( ) , sketch . am ( ) ) ) , {
+let ghost u0 = * self ;
+let ghost s = * sketch ;
+let ghost lgn = if s . lg_k < u0 . lg_k {
+s . lg_k }
+else {
+u0 . lg_k }
+;
+let ghost kn = pow2 ( lgn as nat ) as int ;
+proof {
+lemma_k26 ( self . lg_k ) ;
+lemma_k26 ( sketch . lg_k ) ;
+lemma_k26 ( lgn ) ;
+lemma_kmin ( u0 . lg_k , s . lg_k ) ;
+}
+assert! ( self . seed == sketch . seed ( ) ) ;
+let flavor = sketch . flavor ( ) ;
+if flavor == Flavor :: Empty {
+return ;
+}
+if sketch . lg_k ( ) < self . lg_k {
+self . reduce_k ( sketch . lg_k ( ) ) ;
+}
+let ghost u1 = * self ;
+proof {
+assert forall | i : int , c : int | 0 <= i < kn && 0 <= c < 64 implies u1 . ubit ( i , c ) == am_fold_at ( u0 . um ( ) , kn , i , c ) by {
+if s . lg_k < u0 . lg_k {
+lemma_fold_bridge ( u0 , kn , i , c ) ;
+}
+else {
+lemma_fold_id_at ( u0 . um ( ) , i , c ) ;
+}
+}
+lemma_s_facts ( s ) ;
+}
+if vx_flavor_gt ( flavor , Flavor :: Sparse ) {
+if let UnionState :: Accumulator ( old_sketch ) = & self . state {
+let bit_matrix = old_sketch . build_bit_matrix ( ) ;
+self . state = UnionState :: BitMatrix ( bit_matrix ) ;
+}
+}
+let ghost u2 = * self ;
+proof {
+assert forall | i : int , c : int | 0 <= i < kn && 0 <= c < 64 implies u2 . ubit ( i , c ) == u1 . ubit ( i , c ) by {
+}
+}
+match & mut self . state {
+UnionState :: Accumulator ( old_sketch ) => {
+let ghost a0 = * old_sketch ;
+if flavor == Flavor :: Sparse {
+let old_flavor = old_sketch . flavor ( ) ;
+if old_flavor != Flavor :: Sparse && old_flavor != Flavor :: Empty {
+unreachable! ( ) ;
+}
+if old_flavor == Flavor :: Empty && self . lg_k == sketch . lg_k ( ) {
+* old_sketch = vx_sketch_clone ( sketch ) ;
+proof {
+assert forall | i : int , c : int | 0 <= i < kn && 0 <= c < 64 implies
+/*@C06.update.matrix*/ self . ubit ( i , c ) == ( am_fold_at ( u0 . um ( ) , kn , i , c ) || am_fold_at ( s . am ( ) , kn , i , c ) ) by {
+assert ( ! a0 . mbit ( i , c ) ) ;
+assert ( a0 . mbit ( i , c ) == u1 . ubit ( i , c ) ) ;
+assert ( s . am ( ) . rows == kn ) ;
+lemma_fold_id_at ( s . am ( ) , i , c ) ;
+assert ( am_get ( s . am ( ) , i , c ) == s . mbit ( i , c ) ) ;
+assert ( self . ubit ( i , c ) == s . mbit ( i , c ) ) ;
+}
+lemma_upd_wrap ( * self , u0 , s , kn ) ;
+}
+return ;
+}
+walk_table_updating_sketch ( old_sketch , sketch . surprising_value_table ( ) ) ;
+let final_flavor = old_sketch . flavor ( ) ;
+let ghost a1 = * old_sketch ;
+if vx_flavor_gt ( final_flavor , Flavor :: Sparse ) {
+let bit_matrix = old_sketch . build_bit_matrix ( ) ;
+self . state = UnionState :: BitMatrix ( bit_matrix ) ;
+}
+proof {
+assert forall | i : int , c : int | 0 <= i < kn && 0 <= c < 64 implies
+/*@C06.update.matrix*/ self . ubit ( i , c ) == ( am_fold_at ( u0 . um ( ) , kn , i , c ) || am_fold_at ( s . am ( ) , kn , i , c ) ) by {
+assert ( self . ubit ( i , c ) == a1 . mbit ( i , c ) ) ;
+assert ( a0 . mbit ( i , c ) == u1 . ubit ( i , c ) ) ;
+lemma_sparse_fold ( s , kn , i , c ) ;
+}
+lemma_upd_wrap ( * self , u0 , s , kn ) ;
+}
+return ;
+}
+unreachable! ( ) ;
+}
+UnionState :: BitMatrix ( old_matrix ) => {
+let ghost m0 = old_matrix @ ;
+if flavor == Flavor :: Sparse {
+or_table_into_matrix ( old_matrix , self . lg_k , sketch . surprising_value_table ( ) ) ;
+proof {
+assert forall | i : int , c : int | 0 <= i < kn && 0 <= c < 64 implies
+/*@C06.update.matrix*/ self . ubit ( i , c ) == ( am_fold_at ( u0 . um ( ) , kn , i , c ) || am_fold_at ( s . am ( ) , kn , i , c ) ) by {
+assert ( bit ( m0 [ i ] , c ) == u1 . ubit ( i , c ) ) ;
+lemma_sparse_fold ( s , kn , i , c ) ;
+}
+lemma_upd_wrap ( * self , u0 , s , kn ) ;
+}
+return ;
+}
+if matches! ( flavor , Flavor :: Hybrid | Flavor :: Pinned ) {
+proof {
+lemma_offset0 ( s ) ;
+}
+or_window_into_matrix ( old_matrix , self . lg_k , & sketch . sliding_window , sketch . window_offset , sketch . lg_k ( ) , ) ;
+let ghost m1 = old_matrix @ ;
+or_table_into_matrix ( old_matrix , self . lg_k , sketch . surprising_value_table ( ) ) ;
+proof {
+assert forall | i : int , c : int | 0 <= i < kn && 0 <= c < 64 implies
+/*@C06.update.matrix*/ self . ubit ( i , c ) == ( am_fold_at ( u0 . um ( ) , kn , i , c ) || am_fold_at ( s . am ( ) , kn , i , c ) ) by {
+assert ( bit ( m0 [ i ] , c ) == u1 . ubit ( i , c ) ) ;
+let wm = win_rows ( s . sliding_window @ , s . window_offset ) ;
+lemma_or_bit ( m0 [ i ] , fold_prefix ( wm , kn , i , s . k ( ) ) , c ) ;
+lemma_fold_bit ( wm , kn , i , s . k ( ) , c ) ;
+lemma_win0_fold ( s , kn , i , c ) ;
+}
+lemma_upd_wrap ( * self , u0 , s , kn ) ;
+}
+return ;
+}
+assert! ( flavor == Flavor :: Sliding ) ;
+let src_matrix = sketch . build_bit_matrix ( ) ;
+or_matrix_into_matrix ( old_matrix , self . lg_k , & src_matrix , sketch . lg_k ( ) ) ;
+proof {
+assert forall | i : int , c : int | 0 <= i < kn && 0 <= c < 64 implies
+/*@C06.update.matrix*/ self . ubit ( i , c ) == ( am_fold_at ( u0 . um ( ) , kn , i , c ) || am_fold_at ( s . am ( ) , kn , i , c ) ) by {
+assert ( bit ( m0 [ i ] , c ) == u1 . ubit ( i , c ) ) ;
+lemma_or_bit ( m0 [ i ] , fold_prefix ( src_matrix @ , kn , i , s . k ( ) ) , c ) ;
+lemma_fold_bit ( src_matrix @ , kn , i , s . k ( ) , c ) ;
+lemma_mat_fold ( s , src_matrix @ , kn , i , c ) ;
+}
+lemma_upd_wrap ( * self , u0 , s , kn ) ;
+}
+}
+}
+}
+
+
+    fn reduce_k ( & mut self , new_lg_k : u8 ) requires old ( self ) . uwf ( ) , 4 <= new_lg_k < old ( self ) . lg_k , old ( self ) . acc_reducible ( new_lg_k ) , ensures final ( self ) . uwf ( ) , final ( self ) . lg_k == new_lg_k , final ( self ) . seed == old ( self ) . seed , acc_count ( * final ( self ) ) <= acc_count ( * old ( self ) ) ,
 /*@C06.reduce_k.fold*/ forall | i : int , c : int | 0 <= i < final ( self ) . k ( ) && 0 <= c < 64 ==> final ( self ) . ubit ( i , c ) == ( exists | r : int | 0 <= r < old ( self ) . k ( ) && r % final ( self ) . k ( ) == i && # [ trigger ] old ( self ) . ubit ( r , c ) ) , {
 let ghost k0 = self . k ( ) ;
 let ghost k1 = pow2 ( new_lg_k as nat ) as int ;
@@ -846,6 +1279,164 @@ self . state = UnionState :: BitMatrix ( new_matrix ) ;
 }
 }
 
+
+}
+
+proof fn lemma_low_mask(o: u8) requires o <= 56 ensures (1u64 << o) >= 1 { assert(o <= 56 ==> (1u64 << o) >= 1) by (bit_vector); }
+proof fn lemma_low_mask_bit(o: u8, c: int) requires o <= 56, 0 <= c < 64 ensures bit(((1u64 << o) - 1) as u64, c) == (c < o) {
+    let cc = c as u64;
+    assert(o <= 56 && cc < 64 ==> ((((((1u64 << o) - 1) as u64) >> cc) & 1 == 1) == (cc < o as u64))) by (bit_vector);
+}
+proof fn lemma_window_bit(d: u64, w: u8, o: u8, c: int)
+  requires o <= 56, 0 <= c < 64, d == ((1u64 << o) - 1) as u64
+  ensures bit(d | ((w as u64) << o), c) == (if o <= c < o + 8 { bit8(w, c - o) } else { c < o })
+{
+    let cc = c as u64;
+    assert(o <= 56 && cc < 64 && d == ((1u64 << o) - 1) as u64 ==>
+        ((((d | ((w as u64) << o)) >> cc) & 1 == 1) == (if (o as u64) <= cc && cc < (o as u64) + 8 { (w >> ((cc - o as u64) as u8)) & 1 == 1 } else { cc < o as u64 }))) by (bit_vector);
+}
+proof fn lemma_flip_bit(x: u64, col: u8, c: int)
+  requires col < 64, 0 <= c < 64
+  ensures bit(x ^ (1u64 << col), c) == (bit(x, c) != (c == col))
+{
+    let cc = c as u64;
+    assert(col < 64 && cc < 64 ==> ((((x ^ (1u64 << col)) >> cc) & 1 == 1) == (((x >> cc) & 1 == 1) != (cc == col as u64)))) by (bit_vector);
+}
+proof fn lemma_rc(x: u32)
+  ensures rc((x >> 6) as int, (x & 63) as int) == x, (x & 63) < 64
+{
+    assert((((x >> 6) << 6) | (x & 63)) == x) by (bit_vector);
+    assert((x & 63) < 64) by (bit_vector);
+}
+proof fn lemma_rc_inj(r: int, c: int, r2: int, c2: int)
+  requires 0 <= r < 0x400_0000, 0 <= c < 64, 0 <= r2 < 0x400_0000, 0 <= c2 < 64
+  ensures (rc(r, c) == rc(r2, c2)) <==> (r == r2 && c == c2), rc(r, c) >> 6 == r, rc(r, c) & 63 == c
+{
+    let a = r as u32; let b = c as u32; let a2 = r2 as u32; let b2 = c2 as u32;
+    assert(a < 0x400_0000 && b < 64 && a2 < 0x400_0000 && b2 < 64 ==> ((((a << 6) | b) == ((a2 << 6) | b2)) <==> (a == a2 && b == b2))) by (bit_vector);
+    assert(a < 0x400_0000 && b < 64 ==> (((a << 6) | b) >> 6) == a && (((a << 6) | b) & 63) == b) by (bit_vector);
+}
+
+// ---------- lemmas for CpcUnion::update ----------
+proof fn lemma_kmin(a: u8, b: u8) ensures pow2((if b < a { b } else { a }) as nat) == imin(pow2(a as nat) as int, pow2(b as nat) as int) {
+    if a < b { lemma_pow2_strictly_increases(a as nat, b as nat); }
+    if b < a { lemma_pow2_strictly_increases(b as nat, a as nat); }
+}
+// reduce_k's clause, restated over the algebra
+proof fn lemma_fold_bridge(u: CpcUnion, rows: int, i: int, c: int)
+  ensures (exists|r: int| 0 <= r < u.k() && r % rows == i && #[trigger] u.ubit(r, c)) == am_fold_at(u.um(), rows, i, c)
+{
+    if exists|r: int| 0 <= r < u.k() && r % rows == i && #[trigger] u.ubit(r, c) {
+        let r = choose|r: int| 0 <= r < u.k() && r % rows == i && #[trigger] u.ubit(r, c);
+        assert(am_get(u.um(), r, c));
+    }
+    if am_fold_at(u.um(), rows, i, c) {
+        let r = choose|r: int| 0 <= r < u.um().rows && r % rows == i && #[trigger] am_get(u.um(), r, c);
+        assert(u.ubit(r, c));
+    }
+}
+// the final step: the pointwise statement is the algebraic one
+proof fn lemma_upd_wrap(f: CpcUnion, u0: CpcUnion, s: CpcSketch, n: int)
+  requires f.k() == n, n == imin(u0.k(), s.k()),
+    forall|i: int, c: int| 0 <= i < n && 0 <= c < 64 ==> #[trigger] f.ubit(i, c) == (am_fold_at(u0.um(), n, i, c) || am_fold_at(s.am(), n, i, c)),
+  ensures am_eq(f.um(), am_upd(u0.um(), s.am()))
+{
+    let t = am_upd(u0.um(), s.am());
+    assert forall|i: int, c: int| 0 <= i < n && 0 <= c < 64 implies #[trigger] am_get(f.um(), i, c) == am_get(t, i, c) by {
+        assert(f.ubit(i, c) == (am_fold_at(u0.um(), n, i, c) || am_fold_at(s.am(), n, i, c)));
+    }
+}
+// consequences of the sketch invariant per flavor
+proof fn lemma_s_facts(s: CpcSketch)
+  requires s.wf()
+  ensures
+    frank(flavor_spec(s.lg_k, s.num_coupons)) > 1 <==> s.windowed(),
+    s.num_coupons == 0 <==> flavor_spec(s.lg_k, s.num_coupons) == Flavor::Empty,
+{
+    lemma_k26(s.lg_k);
+}
+// Hybrid and Pinned sketches have their window at offset 0
+proof fn lemma_offset0(s: CpcSketch)
+  requires s.wf(), flavor_spec(s.lg_k, s.num_coupons) == Flavor::Hybrid || flavor_spec(s.lg_k, s.num_coupons) == Flavor::Pinned
+  ensures s.window_offset == 0, s.windowed(), s.num_coupons != 0
+{
+    lemma_k26(s.lg_k);
+    let k = s.k(); let off = s.window_offset as int; let c = s.num_coupons as int;
+    if off > 0 {
+        assert((27 + 8 * (off - 1)) * k >= 27 * k) by (nonlinear_arith) requires off >= 1, k > 0;
+    }
+}
+proof fn lemma_win_row_bit(w: u8, c: int)
+  requires 0 <= c < 64
+  ensures bit((w as u64) << 0u8, c) == (c < 8 && bit8(w, c))
+{
+    let cc = c as u64;
+    assert(cc < 64 ==> (((((w as u64) << 0u8) >> cc) & 1 == 1) == (cc < 8 && (w >> (cc as u8)) & 1 == 1))) by (bit_vector);
+}
+// a Sparse sketch: the table items ARE the matrix
+proof fn lemma_sparse_fold(s: CpcSketch, rows: int, i: int, c: int)
+  requires s.wf_matrix(), !s.windowed(), s.window_offset == 0, rows > 0, 0 <= c < 64
+  ensures (exists|x: u32| s.tbl().contains(x) && #[trigger] hits(x, rows, i, c)) == am_fold_at(s.am(), rows, i, c)
+{
+    lemma_k26(s.lg_k);
+    if exists|x: u32| s.tbl().contains(x) && #[trigger] hits(x, rows, i, c) {
+        let x = choose|x: u32| s.tbl().contains(x) && #[trigger] hits(x, rows, i, c);
+        lemma_rc_compose(x); lemma_row_col_us(x);
+        let r = (x >> 6) as int;
+        assert(s.num_coupons != 0);
+        assert(r < s.k());
+        assert(s.mbit(r, c));
+        assert(am_get(s.am(), r, c));
+    }
+    if am_fold_at(s.am(), rows, i, c) {
+        let r = choose|r: int| 0 <= r < s.am().rows && r % rows == i && #[trigger] am_get(s.am(), r, c);
+        lemma_rc_parts(r, c);
+        assert(s.tbl().contains(rc(r, c)) && hits(rc(r, c), rows, i, c));
+    }
+}
+// a Hybrid / Pinned sketch: window at offset 0 plus the table items with column >= 8
+proof fn lemma_win0_fold(s: CpcSketch, rows: int, i: int, c: int)
+  requires s.wf_matrix(), s.windowed(), s.window_offset == 0, s.num_coupons != 0, rows > 0, 0 <= c < 64
+  ensures am_fold_at(s.am(), rows, i, c) == (fold_hit(win_rows(s.sliding_window@, 0), rows, i, s.k(), c) || exists|x: u32| s.tbl().contains(x) && #[trigger] hits(x, rows, i, c))
+{
+    lemma_k26(s.lg_k);
+    let wm = win_rows(s.sliding_window@, 0);
+    if am_fold_at(s.am(), rows, i, c) {
+        let r = choose|r: int| 0 <= r < s.am().rows && r % rows == i && #[trigger] am_get(s.am(), r, c);
+        assert(s.mbit(r, c));
+        lemma_win_row_bit(s.sliding_window@[r], c);
+        if c < 8 { assert(bit(wm[r], c)); assert(fold_hit(wm, rows, i, s.k(), c)); }
+        else { lemma_rc_parts(r, c); assert(s.tbl().contains(rc(r, c)) && hits(rc(r, c), rows, i, c)); }
+    }
+    if fold_hit(wm, rows, i, s.k(), c) {
+        let r = choose|r: int| 0 <= r < s.k() && r % rows == i && #[trigger] bit(wm[r], c);
+        lemma_win_row_bit(s.sliding_window@[r], c);
+        assert(s.mbit(r, c));
+        assert(am_get(s.am(), r, c));
+    }
+    if exists|x: u32| s.tbl().contains(x) && #[trigger] hits(x, rows, i, c) {
+        let x = choose|x: u32| s.tbl().contains(x) && #[trigger] hits(x, rows, i, c);
+        lemma_rc_compose(x); lemma_row_col_us(x);
+        let r = (x >> 6) as int;
+        assert(r < s.k());
+        assert(!(s.window_offset <= (x & 63) < s.window_offset + 8));
+        assert(s.mbit(r, c));
+        assert(am_get(s.am(), r, c));
+    }
+}
+// a sketch given by its full bit matrix
+proof fn lemma_mat_fold(s: CpcSketch, m: Seq<u64>, rows: int, i: int, c: int)
+  requires m.len() == s.k(), forall|r: int, cc: int| 0 <= r < s.k() && 0 <= cc < 64 ==> bit(m[r], cc) == s.mbit(r, cc), 0 <= c < 64
+  ensures fold_hit(m, rows, i, s.k(), c) == am_fold_at(s.am(), rows, i, c)
+{
+    if fold_hit(m, rows, i, s.k(), c) {
+        let r = choose|r: int| 0 <= r < s.k() && r % rows == i && #[trigger] bit(m[r], c);
+        assert(am_get(s.am(), r, c));
+    }
+    if am_fold_at(s.am(), rows, i, c) {
+        let r = choose|r: int| 0 <= r < s.am().rows && r % rows == i && #[trigger] am_get(s.am(), r, c);
+        assert(bit(m[r], c));
+    }
 }
 
 // a table with a non-zero item count holds some item
